@@ -84,6 +84,13 @@ def gen_tree(rng, malformed=False):
         if rng.random() < 0.5:
             bonded += ['[ dihedraltypes ]', 'X TA TB X 9 0.0 1.0 1', 'X TA TB X 9 180.0 2.0 2']
         files[f'{ffdir}/bonded.itp'] = bonded
+        if rng.random() < 0.5:
+            # files of the same name in the directories of the outer files of the include chain, included by nobody:
+            # an #include is resolved relative to the including file only
+            decoy = ['[ bondtypes ]', 'TA TB 1 0.99 9999', '#define DECOY_READ']
+            files['bonded.itp'] = decoy
+            if '/' in ffdir:
+                files[ffdir.split('/')[0] + '/bonded.itp'] = decoy
         inc = '#include "bonded.itp"'
         if rng.random() < 0.4:
             m = rng.choice(macros)
